@@ -1,5 +1,7 @@
 import BlochVerif.Eval.Flags
 import BlochVerif.Eval.Model
+import BlochVerif.Eval.FlagsAgree
+import BlochVerif.Eval.Control
 /-!
 # C06 — a measured qubit cannot be operated on until reset
 
@@ -238,6 +240,43 @@ theorem guard_refuses_measured (st : EState) (idx : Nat) (p : P) (hi : idx < st.
   have hm' : (st.qubits[idx]?.getD default).measured = true := by
     simpa [List.getD_eq_getElem?_getD] using hm
   simp [StateT.pure, pure, Except.pure, hm', StateT.lift, bind, Except.bind, Except.map, Functor.map]
+
+/-! ### whole-evaluator form: the flag the guard reads is the simulator's, in every reachable state
+
+`Eval.Agree st`: the evaluator knows exactly the simulator's qubits and its measured flag of each equals the
+simulator's.  Established at program start and preserved by every call of every function (the evaluator's induction
+principle applied to the invariant, `Eval/FlagsAgree.lean`).  The guard consults the flag *by qubit index*, so the
+access path — variable, array element, parameter — cannot matter. -/
+open BlochVerif BlochVerif.Eval BlochVerif.Parse in
+theorem flags_agree_at_program_start (prog : Program) (draws : List Float) (e l : Bool) :
+    Agree (startState prog draws e l) :=
+  ⟨rfl, rfl, fun i hi => by simp [startState, Sim.State.init] at hi⟩
+
+open BlochVerif BlochVerif.Eval BlochVerif.Parse in
+theorem flags_agree_after_every_call (fuel : Nat) (fn : FuncDecl) (args : List Value) (st st' : EState) (v : Value)
+    (hi : Agree st) (h : (call fuel fn args).run st = .ok (v, st')) : Agree st' :=
+  call_keeps_flags_in_agreement fuel fn args st st' v hi h
+
+open BlochVerif BlochVerif.Eval BlochVerif.Parse in
+/-- under agreement the evaluator's guard refuses a qubit exactly when the simulator holds it as measured -/
+theorem guard_refuses_iff_simulator_flag (st : EState) (hi : Agree st) (idx : Nat) (p : P) (hl : idx < st.sim.n) :
+    (ensureQubitActive (idx : Int) p).run st = .error (.runtime p.line p.col "qubit has already been measured") ↔
+      st.sim.measured[idx]! = true := by
+  have hlen : idx < st.qubits.length := by rw [hi.count]; exact hl
+  constructor
+  · intro h
+    rw [← hi.same idx hl]
+    cases hm : (st.qubits.getD idx default).measured with
+    | true => rfl
+    | false =>
+      exfalso
+      unfold ensureQubitActive ensureQubitExists at h
+      have h1 : ¬ (((idx : Int) < 0) ∨ (st.qubits.length : Int) ≤ idx) := by omega
+      simp only [run_bind', run_get, ebind_ok, run_ite, run_rtErr, run_pure, Bool.or_eq_true, decide_eq_true_eq, h1,
+        if_false, ge_iff_le, Int.toNat_natCast, hm, Bool.false_eq_true] at h
+      cases h
+  · intro h
+    exact guard_refuses_measured st idx p hlen (by rw [hi.same idx hl]; exact h)
 
 /-! ### non-vacuity -/
 example : firstRefused [false, false] [.gate 0, .measure 0, .gate 1, .reset 0, .gate 0, .measureArr [0, 1], .cx 1 0] 0 = some 6 := by
